@@ -1,5 +1,6 @@
 (** Liveness (Arc strong count > 0) along steps: references are only ever copied from existing references
-    or created by [Dispatch::new]; a collector whose count dropped to zero stays dead. *)
+    or created by [Dispatch::new]; a collector whose count dropped to zero stays dead.  Plus the bookkeeping of
+    collectors under construction ([newing]) and of who may be a thread's current collector. *)
 From Coq Require Import List Arith Bool Lia.
 From TV Require Import Dispatch.Sched_Model Dispatch.Sched_Proofs_Base Dispatch.Sched_Proofs_Lock.
 Import ListNotations.
@@ -8,7 +9,7 @@ Lemma live_iff : forall s c, live s c = true <->
   st_handle s c = true \/ st_gdisp s = Some c \/ exists t, t < st_n s /\ th_holds (st_thr s t) c = true.
 Proof.
   intros. unfold live. rewrite !orb_true_iff, oeqb_true, any_thread_true. tauto.
-Show. Qed.
+Qed.
 Lemma newing_iff : forall s c, newing s c = true <-> exists t, t < st_n s /\ pc_new (pcof s t) c = true.
 Proof. intros. unfold newing. rewrite any_thread_true. reflexivity. Qed.
 Lemma newing_false : forall s c, newing s c = false <-> forall t, t < st_n s -> pc_new (pcof s t) c = false.
@@ -22,10 +23,35 @@ Lemma newing_live : forall s c, newing s c = true -> live s c = true.
 Proof.
   intros s c H. apply newing_iff in H. destruct H as [t [Hlt Hn]]. apply live_iff. right. right.
   exists t. split; auto. apply th_holds_iff. auto.
-Show. Qed.
+Qed.
 
-Lemma in_tl : forall (A : Type) (x : A) l, In x (tl l) -> In x l.
-Proof. intros A x [|y l]; simpl; auto. Qed.
+Lemma upd_true : forall (f : nat -> bool) k v x, upd f k v x = true -> (x = k /\ v = true) \/ (x <> k /\ f x = true).
+Proof. intros. unfold upd in H. destruct (Nat.eqb_spec x k); auto. Qed.
+
+Lemma step_handle : forall W s t s' c, step W s t = Some s' -> st_handle s' c = true ->
+  st_handle s c = true \/ pc_new (pcof s t) c = true.
+Proof.
+  intros W s t s' c H. unfold pcof. step_inv H; norm; rewrite ?Hpc; auto.
+  all: intros Hu; apply upd_true in Hu; destruct Hu as [[-> Hu]|[_ Hu]]; auto; try discriminate.
+  right. cbn. apply Nat.eqb_refl.
+Qed.
+Lemma step_gdisp : forall W s t s' c, step W s t = Some s' -> st_gdisp s' = Some c ->
+  st_gdisp s = Some c \/ pc_tmp (pcof s t) = Some c.
+Proof.
+  intros W s t s' c H. unfold pcof. step_inv H; norm; rewrite ?Hpc; auto.
+Qed.
+Lemma step_holds : forall W s t s' c, step W s t = Some s' -> th_holds (st_thr s' t) c = true ->
+  th_holds (st_thr s t) c = true \/ st_handle s c = true \/ live s c = true \/
+  (st_created s c = false /\ pc_new (pcof s' t) c = true).
+Proof.
+  intros W s t s' c H. unfold pcof. rewrite !th_holds_iff. step_inv H; self; rewrite ?Hpc; cbn [pc_new pc_kind pc_tmp kind_new].
+  all: intros [Hs|[Hs|Hs]]; try discriminate Hs; auto.
+  all: try match goal with Hs : In _ (_ :: _) |- _ => destruct Hs as [<-|Hs] end.
+  all: try match goal with Hs : In _ (tl _) |- _ => apply in_tl in Hs end.
+  all: try match goal with Hs : Some _ = Some _ |- _ => inversion Hs; subst; clear Hs end.
+  all: auto 7.
+  apply Nat.eqb_eq in Hs. subst. auto 7.
+Qed.
 
 (** A step never resurrects a collector: whoever is live afterwards was live before, or was just created. *)
 Lemma live_step : forall W s t s' c, step W s t = Some s' ->
@@ -34,30 +60,66 @@ Proof.
   intros W s t s' c H HL.
   destruct (step_frame _ _ _ _ H) as [Hlt0 [Hn Hoth]].
   apply live_iff in HL. rewrite Hn in HL.
-  assert (Hold : forall u, u <> t -> u < st_n s -> th_holds (st_thr s' u) c = true -> live s c = true).
-  { intros u Hne Hu Hh. rewrite Hoth in Hh by auto. apply live_iff. eauto. }
-  assert (Hself : forall x, In x (th_scopes (st_thr s t)) \/ pc_new (th_pc (st_thr s t)) x = true \/ pc_tmp (th_pc (st_thr s t)) = Some x -> live s x = true).
-  { intros x Hx. apply live_iff. right. right. exists t. split; auto. apply th_holds_iff. auto. }
-  assert (Hh : forall x, st_handle s x = true -> live s x = true) by (intros; apply live_iff; auto).
-  assert (Hg : forall x, st_gdisp s = Some x -> live s x = true) by (intros; apply live_iff; auto).
   destruct HL as [HL | [HL | [u [Hu HL]]]].
-  all: try (destruct (Nat.eq_dec u t) as [->|Hne]; [| left; eapply Hold; eauto]).
-  all: try apply th_holds_iff in HL.
-  all: step_inv H.
-  all: try (destruct (chk_eq t cs s) as [-> | ->]).
-  all: unfold pcof in *; self.
-  all: try rewrite Hpc in *.
-  all: try solve [left; auto].
-  all: repeat match goal with H : _ \/ _ |- _ => destruct H end.
-  all: cbn [pc_new pc_kind pc_tmp kind_new] in *.
-  all: try discriminate.
-  all: try match goal with H : Some _ = Some _ |- _ => inversion H; subst; clear H end.
-  all: try match goal with H : (_ =? _) = true |- _ => apply Nat.eqb_eq in H; subst end.
-  all: try match goal with H : upd _ ?k _ ?x = true |- _ => unfold upd in H; destruct (Nat.eqb_spec x k); [subst|]; try discriminate end.
-  all: try match goal with H : In _ (_ :: _) |- _ => destruct H; [subst|] end.
-  all: try solve [ left; auto
-                 | left; apply Hself; rewrite Hpc; cbn; auto using Nat.eqb_refl
-                 | left; apply Hself; auto using in_tl
-                 | left; apply Hself; rewrite Hpc; cbn; right; left; apply Nat.eqb_refl
-                 | right; split; [assumption | apply Nat.eqb_refl] ].
-Show. Qed.
+  - apply (step_handle _ _ _ _ _ H) in HL. destruct HL as [HL|HL]; left; apply live_iff; auto.
+    right. right. exists t. split; auto. apply th_holds_iff. auto.
+  - apply (step_gdisp _ _ _ _ _ H) in HL. destruct HL as [HL|HL]; left; apply live_iff; auto.
+    right. right. exists t. split; auto. apply th_holds_iff. auto.
+  - destruct (Nat.eq_dec u t) as [->|Hne].
+    + apply (step_holds _ _ _ _ _ H) in HL. destruct HL as [HL|[HL|[HL|HL]]]; auto; left; apply live_iff; eauto.
+    + rewrite Hoth in HL by auto. left. apply live_iff. eauto.
+Qed.
+
+(** * Collectors under construction *)
+
+(** a thread enters [pc_new c] only by starting [ONew c] on a not-yet-created c, keeps it through the writer
+    section and leaves it at the unlock *)
+Lemma step_pc_new : forall W s t s' c, step W s t = Some s' -> pc_new (pcof s' t) c = true ->
+  pc_new (pcof s t) c = true \/ (st_created s c = false /\ pcof s t = PIdle /\ pcof s' t = PWrLock (KNew c)).
+Proof.
+  intros W s t s' c H. unfold pcof. step_inv H; self; rewrite ?Hpc; cbn [pc_new pc_kind kind_new]; auto; try discriminate.
+  intros E. apply Nat.eqb_eq in E. subst. auto.
+Qed.
+Lemma step_created : forall W s t s' c, step W s t = Some s' -> st_created s c = true -> st_created s' c = true.
+Proof.
+  intros W s t s' c H. step_inv H; norm; auto.
+  intros E. unfold upd. destruct (c =? c0); auto.
+Qed.
+Lemma step_created_new : forall W s t s' c, step W s t = Some s' -> st_created s c = false -> st_created s' c = true ->
+  pcof s' t = PWrLock (KNew c).
+Proof.
+  intros W s t s' c H. unfold pcof. step_inv H; self; try congruence.
+  intros E1 E2. unfold upd in E2. destruct (Nat.eqb_spec c c0); subst; congruence.
+Qed.
+
+Record InvN (s : state) : Prop := {
+  N1 : forall c t, t < st_n s -> pc_new (pcof s t) c = true -> st_created s c = true;
+  N2 : forall c t1 t2, t1 < st_n s -> t2 < st_n s -> pc_new (pcof s t1) c = true -> pc_new (pcof s t2) c = true -> t1 = t2
+}.
+
+Lemma InvN_init : forall progs, InvN (init progs).
+Proof. intros. constructor; unfold pcof; simpl; intros; discriminate. Qed.
+
+Lemma InvN_step : forall W s t s', InvN s -> step W s t = Some s' -> InvN s'.
+Proof.
+  intros W s t s' [n1 n2] H.
+  destruct (step_frame _ _ _ _ H) as [Hlt [Hn Hoth]].
+  assert (Hpo : forall t', t' <> t -> pcof s' t' = pcof s t') by (intros; unfold pcof; rewrite Hoth; auto).
+  constructor; rewrite Hn.
+  - intros c u Hu Hp. destruct (Nat.eq_dec u t) as [->|Hne].
+    + destruct (step_pc_new _ _ _ _ _ H Hp) as [Hp'|[Hc [_ Hp']]].
+      * eapply step_created; eauto.
+      * destruct (st_created s' c) eqn:E; auto. exfalso.
+        revert Hp' E. clear - H Hc. unfold pcof. step_inv H; self; try discriminate.
+        intros E. inversion E; subst. rewrite upd_same. discriminate.
+    + rewrite Hpo in Hp by auto. eapply step_created; eauto.
+  - intros c t1 t2 H1 H2 P1 P2.
+    destruct (Nat.eq_dec t1 t) as [->|Hne1]; destruct (Nat.eq_dec t2 t) as [->|Hne2]; auto.
+    + rewrite Hpo in P2 by auto.
+      destruct (step_pc_new _ _ _ _ _ H P1) as [Hp'|[Hc _]]; eauto.
+      apply n1 in P2; auto. congruence.
+    + rewrite Hpo in P1 by auto.
+      destruct (step_pc_new _ _ _ _ _ H P2) as [Hp'|[Hc _]]; eauto.
+      apply n1 in P1; auto. congruence.
+    + rewrite Hpo in P1, P2 by auto. eauto.
+Qed.
